@@ -100,6 +100,14 @@ def parse_errors(stderr, gen, fname):
                             src = it.get('file')
                     if src:
                         gen.setdefault('missing_fns', set()).add((mm.group(1), src))
+                mm = re.search(r'no method named `([A-Za-z_0-9]+)` found for (?:reference `&(?:mut )?|struct `|enum `)(?:[a-z_]+::)*([A-Za-z_0-9]+)', head)
+                if mm:
+                    src = None
+                    for it in gen.get('items', []):
+                        if it.get('item', '').split()[-1].split('::')[-1] == reg[1].split('::')[-1]:
+                            src = it.get('file')
+                    if src:
+                        gen.setdefault('missing_fns', set()).add((mm.group(2) + '::' + mm.group(1), src))
             und.append('verifier/compile error: ' + head + (' @gen:%d: %s' % (ln, lines[ln - 1].strip() if 0 < ln <= len(lines) else '')))
             continue
         reg = _region_at(gen, ln)
